@@ -186,7 +186,13 @@ class CallsMixin:
         for x in ax:
             st.assume(x) if not st.guards else (_ for _ in ()).throw(Unsupported('filtered comprehension under guard'))
         r = z3.Int(fresh_name('r'))
-        res = self.mk_list(st, elt.ty, rl, z3.Lambda([r], T.Sel(ef, src(r))), kind=kind)
+        if self.contract.get('comprehension_as_array'):
+            # opt-in (see the unfiltered case above): the kept items as a fresh array constant with a defining axiom
+            farr = z3.Const(fresh_name('kept'), z3.ArraySort(z3.IntSort(), sort_of(elt.ty)))
+            st.assume(z3.ForAll([r], z3.Select(farr, r) == T.Sel(ef, src(r))))
+            res = self.mk_list(st, elt.ty, rl, farr, kind=kind)
+        else:
+            res = self.mk_list(st, elt.ty, rl, z3.Lambda([r], T.Sel(ef, src(r))), kind=kind)
         cache[ck] = (src, dst, rl, None, ax, m.n)
         return res
 
